@@ -261,6 +261,35 @@ theorem tx_counter_eq_acked_nonempty (ops : List Op) (hw : ∀ op ∈ ops, op.WF
   rw [h1, List.map_append, List.filter_append, hq, h2]
   exact List.drop_left
 
+/-- the length octet of the data channel header (the second header byte; the harness / driver write
+    `body.length` there) -/
+def Pdu.lenField (x : Pdu) : Nat := x.body.length % 256
+
+/-- **C16**, what "non-empty" means: the counter theorems above count PDUs with `NE` (payload list not empty).
+    The code decides "has payload" on the *full 8 bit* length octet (`( header & 0xff00 ) != 0` in `received`;
+    `acknowledge( bool )` counts every popped PDU). For every payload length that fits the octet — the buffer
+    admits at most `max_buffer_size - 2 = 249` bytes — the two coincide: there is no hidden bound (≤ 31, ≤ 63, ≤ 127)
+    on the payload length in `rx_counter_eq_new_nonempty` / `tx_counter_eq_acked_nonempty`. -/
+theorem nonempty_is_full_length_octet (x : Pdu) (h : x.body.length < 256) :
+    x.lenField ≠ 0 ↔ NE x.msg = true := by
+  unfold Pdu.lenField NE Pdu.msg
+  cases hb : x.body with
+  | nil => simp
+  | cons a l =>
+    rw [hb] at h
+    simp only [List.length_cons] at h ⊢
+    simp only [List.isEmpty_cons, Bool.not_false, iff_true]
+    omega
+
+/-- … and a narrower reading of the octet is a different predicate: with the 6 bit length idiom of the
+    advertising PDUs a 64 byte payload would count as empty (the seeded defect `_miss` C16, caught by the
+    check since the data length extension configurations exist). -/
+theorem six_bit_length_is_not_nonempty :
+    ¬ ∀ x : Pdu, x.body.length < 256 → (x.body.length % 64 ≠ 0 ↔ NE x.msg = true) := by
+  intro h
+  have := h (mkPdu (2, List.replicate 64 0) false false) (by simp [mkPdu])
+  simp [mkPdu, NE, Pdu.msg] at this
+
 /-- the hypothesis `Op.WF` of the transmit counter theorem is necessary: committing a PDU without
     payload makes the callback count differ from the number of non-empty acknowledged PDUs (the
     code counts every PDU popped from the transmit queue). No call site in bluetoe commits a PDU
